@@ -232,6 +232,25 @@ def _check_dtmem(run, repo, world):
             continue
         sites.append((cls, modname, fn, c, q, unparse(dt)))
     run.floor("observer decode sites with device-type memory", len(sites), 4)
+    # the instance map is the driver's attribute as it is when the frame is
+    # decoded (the application may assign it after connecting): a copy taken
+    # before the watcher's loop is the map of an earlier time
+    for (cls, modname, fn, c, q) in _decoder_calls(world):
+        if modname not in (HID, SER):
+            continue
+        kw = {k.arg: k.value for k in c.keywords}
+        mp_ = kw.get("dev_inst_map")
+        if mp_ is None:
+            continue
+        params_ = {a.arg for a in fn.args.args + fn.args.kwonlyargs}
+        okm = (isinstance(mp_, ast.Attribute) and isinstance(
+            mp_.value, ast.Name) and mp_.value.id == "self") or (
+                isinstance(mp_, ast.Name) and mp_.id in params_)
+        run.ob("R-DTMEM", q + "#instance-map-read-at-decode", okm,
+               "the decoder is handed `%s` as the instance map, a value "
+               "taken earlier than the decode: a map assigned to the driver "
+               "after that is ignored and device/instance events stay "
+               "ambiguous" % unparse(mp_), where(repo.mod(modname), c))
     for (cls, modname, fn, c, q, dtvar) in sites:
         mod = repo.mod(modname)
         cfg = CFG(fn, may_raise=default_may_raise, name=q)
